@@ -33,6 +33,12 @@ LevelBlockCase(len, pt) ==
       hb == [j \in 1..nb |-> IF j = 1 THEN 0 ELSE IF j = nb THEN 1 ELSE PatBit(pt, 5, j - 1, nb)]     \* count << 1
   IN [kind |-> "levelblock", len |-> len, pat |-> pt, countbits |-> Tail(hb),
       bytes |-> <<len + 1, 0, 0, 0>> \o VarintBits(hb) \o <<1>>]
+(* the dictionary indices of a categorical column as writer.encode_dict stores them: the bit width in one byte (8, 16 or   *)
+(* 32, the width of the codes), then ONE bit-packed run of all the codes.  Codes are the small numbers 0, 3, 6, ... so that *)
+(* they fit the signed code dtype of every width.                                                                          *)
+DictPageCase(ww, nn) ==
+  LET vals == [i \in 1..nn |-> PadTo(NatToBits(((i - 1) * 3) % 100, 8), ww)]
+  IN [kind |-> "dictpage", w |-> ww, n |-> nn, pat |-> "codes", bytes |-> <<ww>> \o BitPackRun(vals, ww), values |-> vals]
 BoolCase(nn, pt) == [kind |-> "bool", n |-> nn, pat |-> pt, bits |-> [i \in 1..nn |-> PatBit(pt, i, 0, 1)],
                      bytes |-> BoolPack([i \in 1..nn |-> PatBit(pt, i, 0, 1)])]
 
@@ -55,6 +61,7 @@ VectorsQuick ==
   \cup {HybridCase(ww, pt, c1, g2, c3) : ww \in {1, 5, 8, 12, 24}, pt \in {"mix", "alt"}, c1 \in {1, 9}, g2 \in {1, 2}, c3 \in {0, 8}}
   \cup {VarintCase(len, pt) : len \in 1..10, pt \in {"zeros", "ones", "mix"}}
   \cup {LevelBlockCase(len, pt) : len \in 1..5, pt \in {"zeros", "ones", "mix"}}
+  \cup {DictPageCase(ww, nn) : ww \in {8, 16, 32}, nn \in 1..17}
   \cup {BoolCase(nn, pt) : nn \in Counts, pt \in {"ones", "alt", "mix"}}
   \cup {DeltaCase(ww, pt, used, first, md) : ww \in {0, 1, 7, 8, 9, 16, 24, 28, 29, 31, 32, 33, 56}, pt \in {"ones", "mix"},
                                             used \in {1, 3}, first \in {7}, md \in {-3, 5}}
@@ -64,6 +71,7 @@ VectorsThorough ==
   \cup {HybridCase(ww, pt, c1, g2, c3) : ww \in 1..24, pt \in {"mix", "alt"}, c1 \in {1, 8, 9}, g2 \in {1, 2, 3}, c3 \in {0, 1, 8}}
   \cup {VarintCase(len, pt) : len \in 1..10, pt \in PatsAll}
   \cup {LevelBlockCase(len, pt) : len \in 1..5, pt \in PatsAll}
+  \cup {DictPageCase(ww, nn) : ww \in {8, 16, 32}, nn \in 1..33}
   \cup {BoolCase(nn, pt) : nn \in 0..20, pt \in {"ones", "alt", "mix", "zeros"}}
   \cup {DeltaCase(ww, pt, used, first, md) : ww \in 0..56, pt \in {"ones", "mix", "alt", "top"},
                                             used \in 1..4, first \in {0, 7, -2}, md \in {0, -3, 5}}
